@@ -244,14 +244,13 @@ package ethereum
 // on with that index, and passed on whenever the index differs from the one last passed on.
 //@ func fetchCurrentGuardianSet(ctx context.Context, ethConn Connector) (idx uint32, gs *abi.StructsGuardianSet, err error)
 //@   props C01 C03
-//@   requires ethConn != nil
 //@   ensures [set-or-error] err == nil ==> gs != nil
 //@   modifies *
 //@   at [call ethConn.GetGuardianSet]: assert [asks-for-the-current-index] $arg1 == currentIndex
 //@   at [return currentIndex, &gs, nil]: assert [answers-with-that-index-and-set] true
 //@ func (w *Watcher) fetchAndUpdateGuardianSet(logger *zap.Logger, ctx context.Context, ethConn Connector) (err error)
 //@   props C01 C03
-//@   requires w != nil && ethConn != nil && w.setChan != nil
+//@   requires w != nil
 //@   modifies *
 //@   at [call fetchCurrentGuardianSet]: assert [reads-the-watchers-connector] $arg1 == ethConn
 //@   at [w.setChan <- &common.GuardianSet{ Keys: gs.Keys, Index: idx, }]: assert [new-index-only] w.currentGuardianSet != nil && *w.currentGuardianSet == idx && err == nil && gs != nil
